@@ -414,6 +414,14 @@ pub fn normalize(raw: &Case, opts: &NormOpts) -> Case {
                             _ => Op::Nop,
                         }
                     }
+                    Op::SetDepth { slot, depth } => {
+                        let ps = sl(*slot);
+                        if pslots[ps].is_some() {
+                            Op::SetDepth { slot: ps as u8, depth: 1 + sc(*depth, 5) }
+                        } else {
+                            Op::Nop
+                        }
+                    }
                     Op::ConsumeInline { slot, drop_on_wake } => {
                         let ps = sl(*slot);
                         if pslots[ps].is_some() && cfg.pool >= 1 {
